@@ -1,11 +1,13 @@
 //! One monitor module per property.
+pub mod c01;
 pub mod c02;
+pub mod c03;
 pub mod common;
 
 use crate::core::Check;
 
 pub fn registry() -> Vec<&'static dyn Check> {
-    vec![&c02::C02]
+    vec![&c01::C01, &c02::C02, &c03::C03]
 }
 
 pub fn find(id: &str) -> Option<&'static dyn Check> {
